@@ -86,7 +86,7 @@ func c05Atomic(rc *RuleCtx) {
 				if fn == nil {
 					return
 				}
-				switch fn.Name() {
+				switch nm(fn) {
 				case "SetCurDir":
 					// view state: a refused Chdir must leave the working directory where it was
 					muts = append(muts, mut{in: x, what: "SetCurDir() of the view"})
@@ -308,7 +308,7 @@ func c05Nlink(rc *RuleCtx) {
 					}
 				}
 				eachCall(f, func(ci ssa.CallInstruction) {
-					if fn := calleeFunc(ci); fn != nil && fn.Name() == "removeChild" && enclosingRangeHeader(ci) == nil {
+					if fn := calleeFunc(ci); fn != nil && nm(fn) == "removeChild" && enclosingRangeHeader(ci) == nil {
 						removals = append(removals, ci)
 					}
 				})
@@ -402,7 +402,7 @@ func c05Index(rc *RuleCtx) {
 		}
 		eachCall(f, func(ci ssa.CallInstruction) {
 			if fn := calleeFunc(ci); fn != nil {
-				switch fn.Name() {
+				switch nm(fn) {
 				case "addChild":
 					cIns++
 				case "remove":
@@ -418,7 +418,7 @@ func c05Index(rc *RuleCtx) {
 		if cIns+cDel+nIns+nDel == 0 {
 			continue
 		}
-		if f.Name() == "addChild" {
+		if nm(f) == "addChild" {
 			continue // the children-side primitive itself
 		}
 		cons := funcName(f) + " children<->index"
